@@ -1,7 +1,468 @@
 package main
 
-import "github.com/tucats/ego/internal/verifrt/report"
+import (
+	"fmt"
+	"io"
+	"io/fs"
+	"os"
+	"path/filepath"
+	"regexp"
+	"sort"
+	"strings"
+	"sync"
 
-func corpus(r *report.R, scratch string) {}
+	"github.com/tucats/ego/internal/errors"
+	"github.com/tucats/ego/internal/language/compiler"
+	"github.com/tucats/ego/internal/language/tokenizer"
+	"github.com/tucats/ego/internal/verifrt/egobatch"
+	"github.com/tucats/ego/internal/verifrt/report"
+)
 
-func replay(r *report.R, scratch string) {}
+// compileOnly hands a text to the compiler without running it.
+func compileOnly(src string) (msg string) {
+	defer func() {
+		if r := recover(); r != nil {
+			msg = fmt.Sprintf("GO-PANIC: %v", r)
+		}
+	}()
+
+	setup()
+
+	_, err := compiler.New("corpus").SetInteractive(false).Compile("corpus", tokenizer.New("@extensions true\n"+src, true))
+	if !errors.Nil(err) {
+		return err.Error()
+	}
+
+	return ""
+}
+
+func copyTree(src, dst string) error {
+	return filepath.WalkDir(src, func(p string, d fs.DirEntry, err error) error {
+		if err != nil {
+			return err
+		}
+
+		rel, _ := filepath.Rel(src, p)
+		to := filepath.Join(dst, rel)
+
+		if d.IsDir() {
+			return os.MkdirAll(to, 0o755)
+		}
+
+		if !d.Type().IsRegular() {
+			return nil
+		}
+
+		in, err := os.Open(p)
+		if err != nil {
+			return err
+		}
+
+		defer in.Close()
+
+		out, err := os.Create(to)
+		if err != nil {
+			return err
+		}
+
+		defer out.Close()
+
+		_, err = io.Copy(out, in)
+
+		return err
+	})
+}
+
+var (
+	testDuration = regexp.MustCompile(`\)\s+[0-9.]+(ns|µs|ms|s|m[0-9.]+s)\s*$`)
+	completedIn  = regexp.MustCompile(` in [0-9.a-zµ]+$`)
+	digits       = regexp.MustCompile(`[0-9]+`)
+)
+
+// testReport reduces what `ego test` printed to the part the statement speaks
+// of: the tests with their results and the error messages, without durations
+// and source positions.
+func testReport(out string) string {
+	var keep []string
+
+	for _, l := range strings.Split(out, "\n") {
+		l = strings.TrimRight(l, " \t\r")
+
+		switch {
+		case strings.HasPrefix(l, "TEST:"):
+			l = testDuration.ReplaceAllString(l, ")")
+			l = completedIn.ReplaceAllString(l, "")
+			keep = append(keep, l)
+		case strings.Contains(l, "Error:"):
+			keep = append(keep, normOut(strings.TrimSpace(l)))
+		}
+	}
+
+	return strings.Join(keep, "\n")
+}
+
+func slug(s string) string {
+	s = digits.ReplaceAllString(strings.ToLower(s), "")
+
+	var b strings.Builder
+
+	for _, c := range s {
+		switch {
+		case c >= 'a' && c <= 'z':
+			b.WriteRune(c)
+		case b.Len() > 0 && !strings.HasSuffix(b.String(), "-"):
+			b.WriteByte('-')
+		}
+	}
+
+	out := strings.Trim(b.String(), "-")
+	if len(out) > 48 {
+		out = strings.Trim(out[:48], "-")
+	}
+
+	if out == "" {
+		out = "differs"
+	}
+
+	return out
+}
+
+// firstReportDiff names the first line of the formatted file's test report
+// that the original's report does not have.
+func firstReportDiff(a, b string) string {
+	have := map[string]int{}
+	for _, l := range strings.Split(a, "\n") {
+		have[l]++
+	}
+
+	for _, l := range strings.Split(b, "\n") {
+		if have[l] > 0 {
+			have[l]--
+
+			continue
+		}
+
+		return l
+	}
+
+	return "lines missing from the report"
+}
+
+type corpusFile struct {
+	rel  string // path relative to the repository root
+	src  string
+	f1   string
+	kind string // "test" (tests/: run with `ego test`), "other"
+}
+
+// observesLines: texts that read their own source positions are outside the
+// statement ("ignoring source line numbers").
+func observesLines(src string) bool {
+	return strings.Contains(src, "Frames(") || strings.Contains(src, "@line")
+}
+
+// corpus judges every .ego file of the repository.
+func corpus(r *report.R, scratch string) {
+	repo := os.Getenv("VERIF_REPO")
+	if repo == "" {
+		fatal("VERIF_REPO is not set")
+	}
+
+	var files []corpusFile
+
+	for _, root := range []string{"tests", "lib", "examples"} {
+		_ = filepath.WalkDir(filepath.Join(repo, root), func(p string, d fs.DirEntry, err error) error {
+			if err != nil || d.IsDir() || !strings.HasSuffix(p, ".ego") {
+				return nil
+			}
+
+			b, err := os.ReadFile(p)
+			if err != nil {
+				return nil
+			}
+
+			rel, _ := filepath.Rel(repo, p)
+			kind := "other"
+
+			if root == "tests" {
+				kind = "test"
+			}
+
+			files = append(files, corpusFile{rel: rel, src: string(b), kind: kind})
+
+			return nil
+		})
+	}
+
+	sort.Slice(files, func(a, b int) bool { return files[a].rel < files[b].rel })
+
+	if len(files) == 0 {
+		r.Capped("no .ego corpus files found under " + repo)
+
+		return
+	}
+
+	origTree, fmtTree := filepath.Join(scratch, "corpus-orig"), filepath.Join(scratch, "corpus-fmt")
+
+	for _, tree := range []string{origTree, fmtTree} {
+		if err := copyTree(filepath.Join(repo, "tests"), filepath.Join(tree, "tests")); err != nil {
+			fatal("cannot copy the tests tree: " + err.Error())
+		}
+	}
+
+	type viol struct {
+		cell, msg string
+		w         Witness
+	}
+
+	var (
+		viols      []viol
+		rejected   []string
+		unjudged   []string
+		skipped    []string
+		sameTok    int
+		testsToRun []int
+	)
+
+	add := func(cell, msg string, w Witness) { viols = append(viols, viol{cell, msg, w}) }
+
+	for i := range files {
+		f := &files[i]
+
+		r.Eval(1)
+
+		f1, err := render(f.src, "auto")
+		if err != nil {
+			if msg := compileOnly(f.src); msg != "" {
+				rejected = append(rejected, f.rel+": "+clip(msg, 120))
+
+				continue
+			}
+
+			out, status, ok := ego(scratch, "", "fmt", filepath.Join(repo, f.rel))
+			if ok && status != 0 {
+				add("fmt-fails:corpus:"+slug(err.Error()), f.rel+": the compiler accepts the file, ego fmt does not: "+clip(err.Error(), 200),
+					Witness{Family: "corpus", Name: f.rel, File: f.rel, Kind: "fmt-fails", Mode: "auto", Detail: err.Error(), Confirmed: "`ego fmt` exits " + fmt.Sprint(status) + ": " + clip(strings.TrimSpace(out), 200)})
+			}
+
+			continue
+		}
+
+		f.f1 = f1
+
+		r.Distinct(f.src)
+
+		if f2, err := render(f1, "auto"); err != nil || f2 != f1 {
+			d := "second pass differs: "
+			if err != nil {
+				d = "formatting the formatted file fails: " + err.Error()
+			} else {
+				d += firstDiff(f1, f2)
+			}
+
+			add("not-idempotent:corpus", f.rel+": "+clip(d, 250), Witness{Family: "corpus", Name: f.rel, File: f.rel, Kind: "not-idempotent", Mode: "auto", Detail: d, Confirmed: "in-process parse+format, the code behind `ego fmt`"})
+		}
+
+		if lost := lostComments(f.src, f1); len(lost) > 0 {
+			d := fmt.Sprintf("%d comment(s) lost: %s", len(lost), clip(strings.Join(lost, " | "), 200))
+			add("comment-lost:corpus", f.rel+": "+d, Witness{Family: "corpus", Name: f.rel, File: f.rel, Kind: "comment-lost", Mode: "auto", Detail: d, Confirmed: "in-process parse+format, the code behind `ego fmt`"})
+		}
+
+		if sameTokens(f.src, f1) {
+			sameTok++
+
+			continue
+		}
+
+		if f.kind == "test" {
+			if observesLines(f.src) {
+				skipped = append(skipped, f.rel)
+
+				continue
+			}
+
+			if err := os.WriteFile(filepath.Join(fmtTree, f.rel), []byte(f1), 0o644); err != nil {
+				fatal(err.Error())
+			}
+
+			testsToRun = append(testsToRun, i)
+
+			continue
+		}
+
+		// packages, services, examples cannot be run on their own: the formatted
+		// file must at least still compile when the original does
+		if msg := compileOnly(f.src); msg == "" {
+			if msg2 := compileOnly(f1); msg2 != "" {
+				add("changes-program:corpus:"+slug(msg2), f.rel+": the original compiles, the formatted file does not: "+clip(msg2, 200),
+					Witness{Family: "corpus", Name: f.rel, File: f.rel, Kind: "changes-program", Mode: "auto", Formatted: f1, Detail: msg2, Confirmed: "compiler.Compile in-process on both texts"})
+
+				continue
+			}
+		}
+
+		unjudged = append(unjudged, f.rel)
+	}
+
+	// run the test files, original and formatted, through the real `ego test`
+	n := 8
+
+	poolO, err := egobatch.NewPool(origTree, n)
+	if err != nil {
+		fatal(err.Error())
+	}
+
+	poolF, err := egobatch.NewPool(fmtTree, n)
+	if err != nil {
+		fatal(err.Error())
+	}
+
+	type pair struct{ o, f egobatch.Result }
+
+	results := make([]pair, len(testsToRun))
+
+	var wg sync.WaitGroup
+
+	sem := make(chan struct{}, 2*n)
+
+	for k, i := range testsToRun {
+		wg.Add(2)
+
+		go func(k, i int) {
+			defer wg.Done()
+
+			sem <- struct{}{}
+
+			defer func() { <-sem }()
+
+			results[k].o, _ = poolO.Run("test", files[i].rel)
+		}(k, i)
+
+		go func(k, i int) {
+			defer wg.Done()
+
+			sem <- struct{}{}
+
+			defer func() { <-sem }()
+
+			results[k].f, _ = poolF.Run("test", files[i].rel)
+		}(k, i)
+	}
+
+	wg.Wait()
+	poolO.Close()
+	poolF.Close()
+
+	ran, differ, flaky := 0, 0, 0
+
+	for k, i := range testsToRun {
+		f := files[i]
+		o, fm := results[k].o, results[k].f
+
+		if o.Died || fm.Died {
+			r.Capped("ego test did not finish for " + f.rel)
+
+			continue
+		}
+
+		ran++
+
+		if testReport(o.Out) == testReport(fm.Out) {
+			continue
+		}
+
+		// re-judge twice in fresh processes; a file whose own report is not stable is not judged
+		var ro, rf [2]string
+
+		stable := true
+
+		for t := 0; t < 2; t++ {
+			a, _, ok1 := egoIn(origTree, "test", f.rel)
+			b, _, ok2 := egoIn(fmtTree, "test", f.rel)
+
+			if !ok1 || !ok2 {
+				stable = false
+			}
+
+			ro[t], rf[t] = testReport(a), testReport(b)
+		}
+
+		if !stable || ro[0] != ro[1] || rf[0] != rf[1] {
+			flaky++
+
+			continue
+		}
+
+		if ro[0] == rf[0] {
+			continue
+		}
+
+		differ++
+
+		line := firstReportDiff(ro[0], rf[0])
+		add("changes-program:corpus:"+slug(strings.TrimPrefix(line, "Error:")), f.rel+": `ego test` reports differently for the formatted file: "+clip(line, 200),
+			Witness{Family: "corpus", Name: f.rel, File: f.rel, Kind: "changes-program", Mode: "auto", Formatted: f.f1, Detail: line,
+				Confirmed: "two fresh `ego test` runs of the original agree with each other, two of the formatted file agree with each other, and the two differ"})
+	}
+
+	sort.Slice(viols, func(a, b int) bool { return viols[a].w.Name < viols[b].w.Name })
+
+	for _, v := range viols {
+		r.Violation(v.cell, len(v.w.Name), v.w, v.msg)
+	}
+
+	fmt.Printf("c05: corpus files=%d rejected-by-compiler=%d same-tokens=%d tests-run=%d differ=%d unstable=%d skipped-line-observers=%d unjudged-behaviour=%d\n",
+		len(files), len(rejected), sameTok, ran, differ, flaky, len(skipped), len(unjudged))
+
+	r.Set("corpus_files", len(files))
+	r.Set("corpus_rejected_by_compiler", rejected)
+	r.Set("corpus_formatted_with_same_tokens", sameTok)
+	r.Set("corpus_test_files_run_original_and_formatted", ran)
+	r.Set("corpus_test_files_with_unstable_report", flaky)
+	r.Set("corpus_skipped_observe_own_line_numbers", skipped)
+	r.Set("corpus_behaviour_not_judged_compile_only", unjudged)
+	r.Sample(map[string]any{"name": "corpus/" + files[0].rel, "source": clip(files[0].src, 400)})
+}
+
+// egoIn runs the plain binary with dir as working directory.
+func egoIn(dir string, args ...string) (string, int, bool) {
+	return ego(dir, "", args...)
+}
+
+func replay(r *report.R, scratch string) {
+	var w Witness
+
+	if err := report.LoadReplay(r.Replay, &w); err != nil {
+		fatal("cannot load the replay file: " + err.Error())
+	}
+
+	r.Rule("replay of one recorded witness")
+	r.Eval(1)
+	r.Distinct("replay")
+	r.Distinct(w.Name)
+	r.Sample(w.Name)
+
+	if w.Family == "corpus" {
+		corpus(r, scratch)
+		r.Finish()
+
+		return
+	}
+
+	res := judgeAll(scratch, []Job{{Src: w.Source, Frag: w.Fragment}})
+
+	for _, f := range res[0].Findings {
+		if f.Kind != w.Kind {
+			continue
+		}
+
+		if ok, how := confirm(scratch, w.Source, w.Fragment, f); ok {
+			w.Confirmed = how
+			r.Violation("replay:"+w.Kind, 1, w, w.Name+": "+f.Detail)
+
+			break
+		}
+	}
+
+	r.Finish()
+}
